@@ -8,6 +8,7 @@
   deliveries, and whether the link ends). Helper lemmas: Lemmas/Responder.lean.
 -/
 import GoSecs.Lemmas.Responder
+import GoSecs.Lemmas.HsmsGen
 import GoSecs.Gen.Consts
 import GoSecs.Gen.Funcs
 import GoSecs.Gen.Facts
@@ -31,7 +32,7 @@ theorem isValidSType_gen (n : Nat) (h : n < 256) : Gen.hsms_IsValidSType (n : In
   by_cases h7 : n = 7; · subst h7; decide
   by_cases h9 : n = 9; · subst h9; decide
   unfold Gen.hsms_IsValidSType isValidSType
-  rw [Go.wrapU_of_range 8 n (by omega) (by omega)]
+  try rw [Go.wrapU_of_range 8 n (by omega) (by omega)]   -- `MsgType(b)` is emitted as `b` (same width)
   have i0 : ¬ ((n : Int) = 0) := by omega
   have i1 : ¬ ((n : Int) = 1) := by omega
   have i2 : ¬ ((n : Int) = 2) := by omega
@@ -42,6 +43,31 @@ theorem isValidSType_gen (n : Nat) (h : n < 256) : Gen.hsms_IsValidSType (n : In
   have i7 : ¬ ((n : Int) = 7) := by omega
   have i9 : ¬ ((n : Int) = 9) := by omega
   simp [h0, h1, h2, h3, h4, h5, h6, h7, h9, i0, i1, i2, i3, i4, i5, i6, i7, i9]
+
+/-- The response constructors the control procedures answer with (regenerated from hsms/control_msg.go):
+    `NewSelectRsp` / `NewDeselectRsp` / `NewLinktestRsp` refuse a request of the wrong type and otherwise echo
+    session id and system bytes with the status in header byte 3; `NewRejectReqRaw` echoes PType (reason 2) or
+    SType. For every request, status and reason. -/
+theorem responseCtors_gen (req : Hsms.ControlMsg) (status : UInt8) :
+    Gen.hsms_NewSelectRsp req.toGen (status.toNat : Int) =
+      (match Hsms.newSelectRsp req status with
+       | .ok m => (m.toGen, none) | .error _ => Hsms.wrongReq "expected select.req message") ∧
+    Gen.hsms_NewDeselectRsp req.toGen (status.toNat : Int) =
+      (match Hsms.newDeselectRsp req status with
+       | .ok m => (m.toGen, none) | .error _ => Hsms.wrongReq "expected deselect.req message") ∧
+    Gen.hsms_NewLinktestRsp req.toGen =
+      (match Hsms.newLinktestRsp req with
+       | .ok m => (m.toGen, none) | .error _ => Hsms.wrongReq "expected linktest.req message") :=
+  ⟨Hsms.newSelectRsp_gen req status, Hsms.newDeselectRsp_gen req status, Hsms.newLinktestRsp_gen req⟩
+
+theorem rejectCtor_gen (sid : Nat) (p st : UInt8) (s : Hsms.Sys) (reason : UInt8) :
+    Gen.hsms_NewRejectReqRaw (sid : Int) (p.toNat : Int) (st.toNat : Int) s.toBytes (reason.toNat : Int) =
+      (Hsms.newRejectReqRaw sid p st s reason).toGen :=
+  Hsms.newRejectReqRaw_gen sid p st s reason
+
+/-- `(*ControlMessage).Type()` — what `dispatchFrame` / the procedures switch on — is the model's. -/
+theorem controlType_gen (m : Hsms.ControlMsg) : Gen.hsms_ControlMessage_Type m.toGen = (m.type : Int) :=
+  Hsms.controlType_gen m
 
 /-- SType values, reject reasons and select / deselect status codes of the Go source are the model's. -/
 theorem consts_gen :
